@@ -16,10 +16,16 @@ Record qops := mkOps {
   (* what a call of another function (by name) returns; VErr m = it raises m.  Theorems about a body with calls
      assume the callee's specification about [ocall O]; base/PyLink.v discharges it by running the callee's own
      regenerated body *)
-  ocall : string -> list val -> val }.
-Definition real_ops : qops := mkOps Qplus Qminus Qmult Qdiv Qmax Qmin Qle_bool Qeq_bool (fun _ _ => VErr "NameError").
+  ocall : string -> list val -> val;
+  (* how many iterations a `while` loop may make before the interpreter gives up with the error value
+     "FuelExhausted" (which the theorems exclude: they say how much is enough) *)
+  wfuel : nat }.
+Definition real_ops : qops :=
+  mkOps Qplus Qminus Qmult Qdiv Qmax Qmin Qle_bool Qeq_bool (fun _ _ => VErr "NameError") 1000.
 Definition with_calls (O : qops) (c : string -> list val -> val) : qops :=
-  mkOps (qadd O) (qsub O) (qmul O) (qdiv O) (qmax O) (qmin O) (qleb O) (qeqb O) c.
+  mkOps (qadd O) (qsub O) (qmul O) (qdiv O) (qmax O) (qmin O) (qleb O) (qeqb O) c (wfuel O).
+Definition with_fuel (O : qops) (n : nat) : qops :=
+  mkOps (qadd O) (qsub O) (qmul O) (qdiv O) (qmax O) (qmin O) (qleb O) (qeqb O) (ocall O) n.
 Record ops_ok (O : qops) : Prop := mkOk {
   qadd_eq : qadd O = Qplus; qsub_eq : qsub O = Qminus; qmul_eq : qmul O = Qmult; qdiv_eq : qdiv O = Qdiv;
   qmax_eq : qmax O = Qmax; qmin_eq : qmin O = Qmin; qleb_eq : qleb O = Qle_bool; qeqb_eq : qeqb O = Qeq_bool }.
@@ -45,7 +51,8 @@ Inductive expr :=
 | ETuple (es : list expr)                        (* (a, b) / [a, b] *)
 | EIn (neg : bool) (e : expr) (c : expr)         (* e in c / e not in c *)
 | ECall (f : string) (args : list expr)
-| EXor (a b : expr).                             (* a ^ b on booleans *)         (* f(a, b): another translated function (method: ".name", self first) *)
+| EXor (a b : expr)                              (* a ^ b on booleans *)
+| EListComp (elt : expr) (x : string) (it : expr) (cond : option expr).   (* [elt for x in it if cond] *)         (* f(a, b): another translated function (method: ".name", self first) *)
 
 Inductive target := TVar (x : string) | TAttr (x : string) (a : string).
 
@@ -58,6 +65,9 @@ Inductive stmt :=
 | SFor (x : string) (it : expr) (body : list stmt)   (* for x in it: body *)
 | SAssert (e : expr)
 | SUnpack (ts : list target) (e : expr)           (* a, b.c = e *)
+| SWhile (c : expr) (body : list stmt)            (* while c: body  (at most wfuel iterations) *)
+| SBreak | SContinue                              (* only directly in a while body (through ifs) *)
+| SAppend (x : string) (e : expr)                 (* x.append(e) *)
 | SPass.
 
 Definition env := list (string * val).
@@ -226,6 +236,18 @@ Fixpoint eval (rho : env) (e : expr) (k : val -> R) {struct e} : R :=
          | [] => match ocall O f (rev acc) with VErr m => err m | v => k v end
          | e1 :: es' => eval rho e1 (fun v => match v with VErr m => err m | _ => go es' (v :: acc) end)
          end) args []
+  | EListComp elt x it cond =>
+      eval rho it (fun vit =>
+        match vit with
+        | VList l =>
+            gen_collect (fun v kk =>
+               let rho' := update x v rho in
+               match cond with
+               | Some c => eval rho' c (fun vc => bool_k vc (fun t =>
+                             if t then eval rho' elt (fun ve => kk (Some ve)) else kk None))
+               | None => eval rho' elt (fun ve => kk (Some ve))
+               end) l [] (fun vs => k (VList vs))
+        | VErr m => err m | _ => err "TypeError" end)
   | EMaxGen elt x it cond | EMinGen elt x it cond =>
       let ismax := match e with EMaxGen _ _ _ _ => true | _ => false end in
       eval rho it (fun vit =>
@@ -253,6 +275,10 @@ Definition tget (rho : env) (t : target) : val :=
   match t with TVar x => lookup x rho | TAttr x a => match lookup x rho with VObj f => lookup a f | _ => VErr "AttributeError" end end.
 
 
+(* `break` / `continue` set the variable "%flow" (not a Python name); every block stops at a statement that leaves
+   it set, and the enclosing `while` consumes it *)
+Definition flowing (rho : env) : bool := match lookup "%flow" rho with VStr _ => true | _ => false end.
+
 Section EXEC.
 Variable A : Type.
 Variable kret : env -> val -> A.
@@ -269,12 +295,18 @@ Fixpoint exec (s : stmt) (rho : env) (k : env -> A) {struct s} : A :=
   | SReturn e => eval A kerr rho e (fun v => kret rho v)
   | SIf c th el =>
       let block := fix block (l : list stmt) (rho : env) (k : env -> A) : A :=
-                     match l with [] => k rho | s :: l' => exec s rho (fun rho' => block l' rho' k) end in
+                     match l with
+                     | [] => k rho
+                     | s :: l' => exec s rho (fun rho' => if flowing rho' then k rho' else block l' rho' k)
+                     end in
       eval A kerr rho c (fun vc => bool_k A kerr vc (fun t =>
         if t then block th rho k else block el rho k))
   | SFor x it body =>
       let block := fix block (l : list stmt) (rho : env) (k : env -> A) : A :=
-                     match l with [] => k rho | s :: l' => exec s rho (fun rho' => block l' rho' k) end in
+                     match l with
+                     | [] => k rho
+                     | s :: l' => exec s rho (fun rho' => if flowing rho' then k rho' else block l' rho' k)
+                     end in
       eval A kerr rho it (fun vit =>
         match vit with
         | VList l => gen_iter (fun v rho k' => block body (update x v rho) k') l rho k
@@ -287,9 +319,38 @@ Fixpoint exec (s : stmt) (rho : env) (k : env -> A) {struct s} : A :=
                       then k (fold_left (fun r tv => assign1 r (fst tv) (snd tv)) (combine ts vs) rho)
                       else kerr "ValueError"
         | VErr m => kerr m | _ => kerr "TypeError" end)
+  | SBreak => k (update "%flow" (VStr "break") rho)
+  | SContinue => k (update "%flow" (VStr "continue") rho)
+  | SAppend x e => eval A kerr rho e (fun v =>
+                   match lookup x rho with
+                   | VList a => k (update x (VList (a ++ [v])) rho)
+                   | VErr m => kerr m | _ => kerr "AttributeError" end)
+  | SWhile c body =>
+      let block := fix block (l : list stmt) (rho : env) (k : env -> A) : A :=
+                     match l with
+                     | [] => k rho
+                     | s :: l' => exec s rho (fun rho' => if flowing rho' then k rho' else block l' rho' k)
+                     end in
+      (fix loop (n : nat) (rho : env) : A :=
+         match n with
+         | Datatypes.O => kerr "FuelExhausted"
+         | S n' =>
+             eval A kerr rho c (fun vc => bool_k A kerr vc (fun t =>
+               if t then
+                 block body rho (fun rho' =>
+                   match lookup "%flow" rho' with
+                   | VStr f => if String.eqb f "break" then k (update "%flow" VNone rho')
+                               else loop n' (update "%flow" VNone rho')
+                   | _ => loop n' rho'
+                   end)
+               else k rho))
+         end) (wfuel O) rho
   end.
 Fixpoint exec_block (l : list stmt) (rho : env) (k : env -> A) : A :=
-  match l with [] => k rho | s :: l' => exec s rho (fun rho' => exec_block l' rho' k) end.
+  match l with
+  | [] => k rho
+  | s :: l' => exec s rho (fun rho' => if flowing rho' then k rho' else exec_block l' rho' k)
+  end.
 End EXEC.
 (* run a body and observe the final environment with [obs]; raising or returning early are observed too *)
 Definition run {A} (body : list stmt) (rho : env) (obs : env -> option val -> A) (kerr : string -> A) : A :=
